@@ -112,7 +112,7 @@ func msgFields(m *rtcm.Message) string {
 		m.Timestamp, sentAtField(m.SentAt), startOfWeekField(m.StartOfWeek))
 }
 
-// case: stream <T ns> <info|debug> <hex> [capIn capOut]
+// case: stream <T ns> <info|debug> <hex> [capIn capOut [delay]]
 // obs:  n=<count> <msg>;<msg>;...   closed=<times the output was seen closed>   | panic
 func runStream(f []string, out *bufio.Writer) {
 	T := time.Unix(0, atoi64(f[1])).UTC()
@@ -125,24 +125,29 @@ func runStream(f []string, out *bufio.Writer) {
 	chIn := make(chan byte, capIn)
 	chOut := make(chan rtcm.Message, capOut)
 	h := rtcm.New(T, lvl)
-	panicked := make(chan interface{}, 1)
+	delay := 0
+	if len(f) >= 7 {
+		delay = atoi(f[6]) // 1: slow producer, 2: slow consumer, 3: both (yield between operations)
+	}
+	finished := make(chan interface{}, 1) // nil = returned normally, else the panic value
 	go func() {
 		defer func() {
-			if r := recover(); r != nil {
-				panicked <- r
-			}
+			finished <- recover()
 		}()
 		h.HandleMessages(chIn, chOut)
 	}()
 	go func() {
 		defer func() { recover() }()
-		for _, b := range data {
+		for i, b := range data {
+			if delay&1 != 0 && i%3 == 0 {
+				time.Sleep(20 * time.Microsecond)
+			}
 			chIn <- b
 		}
 		close(chIn)
 	}()
 	var msgs []string
-	deadline := time.After(20 * time.Second)
+	deadline := time.After(30 * time.Second)
 loop:
 	for {
 		select {
@@ -152,13 +157,36 @@ loop:
 			}
 			mm := m
 			msgs = append(msgs, msgFields(&mm))
-		case <-panicked:
-			fmt.Fprintln(out, "panic")
+			if delay&2 != 0 {
+				time.Sleep(50 * time.Microsecond)
+			}
+		case r := <-finished:
+			if r != nil {
+				fmt.Fprintln(out, "panic")
+				return
+			}
+			// returned: drain what is left
+			for m := range chOut {
+				mm := m
+				msgs = append(msgs, msgFields(&mm))
+			}
+			fmt.Fprintf(out, "n=%d %s closed=1\n", len(msgs), strings.Join(msgs, ";"))
 			return
 		case <-deadline:
 			fmt.Fprintln(out, "hang")
 			return
 		}
+	}
+	// the output was closed; the handler must now return without closing it again
+	select {
+	case r := <-finished:
+		if r != nil {
+			fmt.Fprintf(out, "n=%d %s closed=2\n", len(msgs), strings.Join(msgs, ";"))
+			return
+		}
+	case <-time.After(10 * time.Second):
+		fmt.Fprintln(out, "hang")
+		return
 	}
 	fmt.Fprintf(out, "n=%d %s closed=1\n", len(msgs), strings.Join(msgs, ";"))
 }
